@@ -89,6 +89,12 @@ CLAIMS = {
         note='Assumes the extraction rules (string literals become opaque tags; `?` error conversions made explicit), Verus+Z3, the key models of the id newtypes, std helper contracts (iterator collect, HashMap iteration order universally quantified), and ASSUMED used-id leaves for Quadratic/Polynomial. KNOWN FINDING D7 (listed in known_findings.txt): TryFrom<v1::Instance> does not check that used variable ids are defined. Defect D3 (unset bound became [0,0]) was found by this check and repaired in /repo.',
         technique='contract-based deductive verification (Verus) of mechanically extracted Rust functions; trait-level ghost contract functions (p_ok/p_out/p_err) with a generically verified default method',
         ref='DESIGN 6 C08'),
+    'C11': dict(
+        text='Deductive proof (Verus) of the real text of Instance::as_pubo_format / as_qubo_format and From<SortedIds> for BinaryIds: export is refused exactly when active constraints remain, the sense is maximisation or a used variable is not a defined binary (PUBO: Err iff one of these); '
+             'keys are canonical (sets of ids / pairs i<=j over ids of the objective, x^k = x) and no stored coefficient is numerically zero (loop invariant over the accumulation).',
+        note=A1 + 'PARTIAL: the value identity sum_S c_S prod x_i = objective(x) on {0,1}^n is NOT decided (needs a summation spec over the BTreeMap and the exact epsilon-drop accounting). ASSUMED: term iterator of &Function, binary_ids, used ids, BinaryIdPair::try_from (slice patterns outside Verus), and the accumulate idiom entry().and_modify().or_insert() as a helper.',
+        technique='contract-based deductive verification (Verus) of mechanically extracted Rust functions',
+        ref='DESIGN 6 C11'),
 }
 NA = {
     'C06': 'evaluate_samples is built from FnMut closures capturing &mut state and iterator adapters over HashMap<OrderedFloat,..>: rejected by Verus, far beyond measured Kani limits; leaf lookups alone do not decide the property (DESIGN 6 C06)',
